@@ -23,16 +23,18 @@ import (
 
 // LedgerOpts sizes one history of the `ledger` profile.
 type LedgerOpts struct {
-	Steps      int
-	NOps       int // genesis validators
-	ExtraOps   int // operators registered at run time
-	NStakers   int
-	Profile    string // "ledger" (default), "exit" (undelegation heavy), "slash", "keys"
-	MaxVals    uint32
-	Unbond     uint32
-	MinSelf    int64
-	HostileAmt bool
+	Steps          int
+	NOps           int // genesis validators
+	ExtraOps       int // operators registered at run time
+	NStakers       int
+	Profile        string // "ledger" (default), "exit" (undelegation heavy), "slash", "keys"
+	MaxVals        uint32
+	Unbond         uint32
+	MinSelf        int64
+	HostileAmt     bool
 	GenesisRecords bool
+	// OracleStart > 0 starts every token feeder at that block (default: feeders never start in ledger histories)
+	OracleStart uint64
 }
 
 func DefaultLedgerOpts() LedgerOpts {
@@ -57,6 +59,11 @@ func BuildLedgerWorld(seed int64, idx int, o LedgerOpts) (*World, error) {
 		stakes[0] = o.MinSelf + 10 + int64(r.Intn(100)) // the protected validator stays eligible
 	}
 	cfg := sim.DefaultConfig(o.NOps, stakes)
+	if o.OracleStart > 0 {
+		for i := range cfg.Assets {
+			cfg.Assets[i].FeederStart = o.OracleStart
+		}
+	}
 	if o.Unbond > 0 {
 		cfg.Dogfood.EpochsUntilUnbonded = o.Unbond
 	}
